@@ -76,8 +76,9 @@ func coqHops(h []m.SwitchHop) string {
 }
 
 type buildObs struct {
-	code   int
-	fb, rb []byte
+	code       int
+	fb, rb     []byte
+	rebuildBad string
 }
 
 func buildReal(hops []m.SwitchHop) buildObs {
@@ -90,7 +91,39 @@ func buildReal(hops []m.SwitchHop) buildObs {
 	case err != nil:
 		return buildObs{code: 1}
 	}
-	return buildObs{code: 0, fb: sp.ForwardBlock, rb: sp.ReturnBlock}
+	bo := buildObs{code: 0, fb: sp.ForwardBlock, rb: sp.ReturnBlock}
+	// The same path built on a struct that already carries the blocks of ANOTHER path (a path that
+	// is rebuilt after a label changed, or a by-value copy of a stored route): the result must be
+	// the same as on a fresh struct, and the other path's blocks must not change.
+	if len(hops) >= 2 {
+		other := append([]m.SwitchHop(nil), hops...)
+		for i := range other {
+			if i < len(other)-1 {
+				other[i].ForwardLabel = m.SwitchLabel(300 + 7*i)
+			}
+			if i > 0 {
+				other[i].ReturnLabel = m.SwitchLabel(1000 + 11*i)
+			}
+		}
+		stored := &m.SwitchPath{Hops: other}
+		if stored.BuildBlocks() == nil {
+			savedF := append([]byte(nil), stored.ForwardBlock...)
+			savedR := append([]byte(nil), stored.ReturnBlock...)
+			cp := *stored
+			cp.Hops = append([]m.SwitchHop(nil), hops...)
+			var err2 error
+			pan2, _ := recoverPanic(func() { err2 = cp.BuildBlocks() })
+			switch {
+			case pan2 || err2 != nil:
+				bo.rebuildBad = "building the path on a struct that carried another path's blocks failed"
+			case string(cp.ForwardBlock) != string(bo.fb) || string(cp.ReturnBlock) != string(bo.rb):
+				bo.rebuildBad = fmt.Sprintf("built on a struct that carried another path's blocks the result differs: forward %v return %v, fresh build forward %v return %v", cp.ForwardBlock, cp.ReturnBlock, bo.fb, bo.rb)
+			case string(stored.ForwardBlock) != string(savedF) || string(stored.ReturnBlock) != string(savedR):
+				bo.rebuildBad = "building a by-value copy of a stored path changed the stored path's blocks"
+			}
+		}
+	}
+	return bo
 }
 
 // checkPath runs the property's own predicate on the real code for one valid path and emits
@@ -111,6 +144,9 @@ func checkPath(c *Ctx, F, R []uint16, emit bool) {
 	if bo.code == 3 {
 		c.Violate("BuildBlocks panicked on a path", "build-panic", rep)
 		return
+	}
+	if bo.rebuildBad != "" {
+		c.Violate("BuildBlocks: "+bo.rebuildBad, "rebuild", rep)
 	}
 	if bo.code == 1 {
 		// refused: fine only if the labels really cannot fit into 255 bytes
